@@ -37,7 +37,9 @@ TEXT["C02"] = dict(
     technique="seeded simulation: same program world, probes inside bodies / enter / exit / callbacks / callees call extract_since and compare running frames with the shadow",
     text="Same generated programs and schedules as C01 plus sync functions; PROBE points in bodies, in __enter__/__exit__/__aenter__/__aexit__, in generator-based "
     "manager bodies before/after the yield, in ExitStack callbacks and 1-2 plain calls below; every probe extracts the running stack and compares every world "
-    "frame on the thread's f_back chain with its shadow (exactness, manager not listed while entering, listed last+exiting+obj while exiting). One known finding (K1) is reported as KNOWN-FINDING.",
+    "frame on the thread's f_back chain with its shadow (exactness, manager not listed while entering, listed last+exiting+obj while exiting). One known finding (K1) is reported as KNOWN-FINDING. "
+    "Hot-loop legs (3.12, 3.11, 3.9): an executing generator / coroutine / async generator goes round a loop 200-3000 times and is extracted from a callee every time "
+    "(frames must equal the f_back chain from its own frame; a worker crash is a violation): the interpreter's adaptive counters take every value on the way.",
     note="Trusted: as C01; 'running on the calling thread' is taken as the f_back chain from the probe (CPython does not link frames that delegate a throw() through a non-generator awaitable).",
     design_ref="5 (C02)",
 )
